@@ -1,28 +1,30 @@
 // C02 — a shuffle is exactly a permutation plus re-masking; generated stack secrets contain bijections (cyclic shifts by
 // the reported offset for rotations); the importer refuses index vectors that are not bijections.
 //
-// Families (--family), everything listed is enumerated completely unless marked "sampled":
-//  mixv   discrete-log encoding.  Fresh tiny group + keys per cell (4 group kinds, k in {2,3}), one small-admissible group.
-//         TMCG_MixStack with EVERY permutation pi in S_n, n in 1..5 (thorough: 1..6, and n = 7 on the Schnorr toy group),
-//         secrets from the pi-taking TMCG_CreateStackSecret, shuffling player = permutation counter mod k,
+// Families (--family), everything listed is enumerated completely unless marked "sampled"; bounds quick / thorough:
+//  mixv   discrete-log encoding.  Fresh toy group + keys per cell (4 group kinds: Schnorr random g 20/8, Schnorr canonical g
+//         24/10, QR group shortened exponents 16/8, QR group full exponents 16/16; k in {2,3}) and one small-admissible group
+//         (256/128, k = 2, n <= 5 / 6).  TMCG_MixStack with EVERY permutation pi in S_n, n in 1..6 / 1..7 (n = 8 on the Schnorr
+//         toy group in thorough), secrets from the pi-taking TMCG_CreateStackSecret, shuffling player = permutation counter mod k,
 //         TimingAttackProtection on and off for n <= 4 (on beyond); type patterns: all distinct, all equal, one pair equal
-//         (the latter two on a stack that is already masked).  Every rotation of n in 2..16 (thorough: ..40).
+//         (the latter two on a stack that is already masked).  Every rotation of every n in 2..16 / 2..40.
 //         Chains: all (pi1,pi2,pi3) in S_n^3 for n <= 3, all (pi1,pi2) in S_4^2, by players 0,1,2 (mod k).
-//  mixq   quadratic-residue encoding (448-bit Rabin keys from a pool; thorough adds 672 bit): every pi in S_n, n in 1..4
-//         (thorough: ..5), k in {2,3}, patterns as above, TimingAttackProtection on/off, masking index = shuffling player;
+//  mixq   quadratic-residue encoding (448-bit Rabin keys from a pool; thorough adds 672 bit with k = 2, n <= 4): every pi in S_n,
+//         n in 1..5 / 1..6, k in {2,3}, patterns as above, TimingAttackProtection on/off, masking index = shuffling player;
 //         chains (pi1,pi2) in S_n^2 for n <= 3; every rotation for n in 2..8.
 //  big    n in {52, 512} with three permutations (identity, reversal, the derangement i -> 7i+3 mod n), both encodings
-//         (discrete-log: toy Schnorr group and a 256/128 bit group; thorough: 2048/256), every output card opened.
-//  gen    the random generators under coin steering: all (n-1)! * n = n! answer sequences of the draws of
-//         random_permutation_fast for n in 1..6 (thorough 1..7) and all n answers of random_rotation for n in 2..16
-//         (thorough: 2..64 and 512), through TMCG_CreateStackSecret(ss, cyclic, ...) in both encodings (QR encoding: n <= 4 /
-//         rotations <= 8).  SAMPLED in addition (default coins, 20 calls each): n in {8, 13, 52, 100, 511, 512}.
-//  import all (n+1)^n index vectors over {0..n} for n in 1..4, all n^n vectors over {0..n-1} for n = 5 (thorough: n = 6 too),
-//         every single-entry overwrite (a <- b, a != b) of {identity, reversal, rotation by 1, i -> 7i+3} for
-//         n in {7, 8, 16, 52} (and for n = 512 with a in {0, 255, 511}), serialised as stack-secret text with real exported
-//         card secrets of both kinds; wrong counts: declared size in {0, m-1, m+1, TMCG_MAX_CARDS+1} for m pairs.
-//  glue   TMCG_GlueStackSecret (private, reached through -fno-access-control): all (sigma, pi) in S_n^2, n in 1..4
-//         (thorough: 5 for the discrete-log encoding), both encodings; also the private TMCG_MixOpenStack for all pi, n <= 4.
+//         (discrete-log: toy Schnorr group and a 256/128 bit group; thorough adds 2048/256), every output card opened.
+//  gen    the random generators under coin steering: all n! answer sequences of the draws of random_permutation_fast for
+//         n in 1..7 / 1..8 and all n answers of random_rotation for n in 2..16 / 2..64 and 512, through
+//         TMCG_CreateStackSecret(ss, cyclic, ...) of both encodings (QR encoding: n <= 5, rotations <= 8).
+//         SAMPLED in addition (default coins, 20 calls each): n in {8, 13, 52, 100, 511, 512}.
+//  import all (n+1)^n index vectors over {0..n} for n in 1..4, all n^n vectors over {0..n-1} for n in 5..6 / 5..7 (TMCG_CardSecret
+//         payload: (n+1)^n for n <= 3, n^n for n = 4 / 4..5), every single-entry overwrite (a <- b, a != b) of {identity,
+//         reversal, rotation by 1, i -> 7i+3} for n in {7, 8, 16, 52} (and for n = 512 with a in {0, 255, 511}), serialised as
+//         stack-secret text with real exported card secrets of both kinds, through import() (and operator>> for n <= 3);
+//         wrong counts: declared size in {0, m-1, m, m+1, TMCG_MAX_CARDS+1} for m in {1,2,3,5,512,513} pairs.
+//  glue   TMCG_GlueStackSecret (private, reached through -fno-access-control): all (sigma, pi) in S_n^2, n in 1..4 / 1..5,
+//         both encodings; also the private TMCG_MixOpenStack for all pi, n <= 4, both encodings.
 //
 // Oracles.  Types are obtained by opening EVERY output card: discrete-log encoding through the real path
 //   (SelfCardSecret, ProveCardSecret -> VerifyCardSecret of every other player, TypeOfCard) with the opener rotating over
@@ -257,15 +259,15 @@ static const GroupCfg VT_DEF = {"schnorr-canon-2048/256", SCHNORR_CANONICAL_G, 2
 
 static void fam_mixv()
 {
-	size_t nmax = thorough ? 6 : 5;
+	size_t nmax = thorough ? 7 : 6;
 	// (a) every permutation
 	for (size_t ci = 0; ci < 5; ci++)
 		for (size_t k = 2; k <= 3; k++)
-			for (size_t n = 1; n <= (ci == 0 && thorough ? 7u : nmax); n++)
+			for (size_t n = 1; n <= (ci == 0 && thorough ? 8u : nmax); n++)
 				for (int pat = 0; pat < 3; pat++)
 				{
 					const GroupCfg &cfg = ci < 4 ? VT_TINY[ci] : VT_ADM;
-					if (ci == 4 && (k == 3 || n > 5))
+					if (ci == 4 && (k == 3 || n > (thorough ? 6u : 5u)))
 						continue;
 					if ((pat == 2 && n < 3) || (pat == 1 && n < 2))
 						continue;   // would repeat another pattern
@@ -513,7 +515,7 @@ static void need_pool()
 static void fam_mixq()
 {
 	need_pool();
-	size_t nmax = thorough ? 5 : 4;
+	size_t nmax = thorough ? 6 : 5;
 	for (size_t si = 0; si < POOL_SIZES.size(); si++)
 		for (size_t k = 2; k <= 3; k++)
 			for (size_t n = 1; n <= nmax; n++)
@@ -763,7 +765,7 @@ static void fam_gen()
 {
 	// discrete-log encoding
 	{
-		size_t pmax = thorough ? 7 : 6, rmax = thorough ? 64 : 16;
+		size_t pmax = thorough ? 8 : 7, rmax = thorough ? 64 : 16;
 		std::vector<std::pair<int, size_t> > todo;   // (cyclic, n)
 		for (size_t n = 1; n <= pmax; n++) todo.push_back(std::make_pair(0, n));
 		for (size_t n = 2; n <= rmax; n++) todo.push_back(std::make_pair(1, n));
@@ -820,7 +822,7 @@ static void fam_gen()
 	// QR encoding (same generators, other overload)
 	need_pool();
 	for (int cyclic = 0; cyclic <= 1; cyclic++)
-		for (size_t n = cyclic ? 2 : 1; n <= (cyclic ? 8u : 4u); n++)
+		for (size_t n = cyclic ? 2 : 1; n <= (cyclic ? 8u : 5u); n++)
 		{
 			std::string cid = std::string("gen:qr:") + (cyclic ? "rot" : "perm") + ":n" + str(n);
 			if (!begin_cell(cid))
@@ -1069,7 +1071,7 @@ static void fam_import()
 				IC.secret_text.push_back(o.str());
 			}
 			mcenv::cur = nullptr;
-			import_cells(IC, "vtmf", thorough ? 6 : 5, 4);
+			import_cells(IC, "vtmf", thorough ? 7 : 6, 4);
 			std::vector<size_t> ns;
 			ns.push_back(7), ns.push_back(8), ns.push_back(16), ns.push_back(52), ns.push_back(512);
 			import_overwrites(IC, "vtmf", ns);
@@ -1167,13 +1169,13 @@ static void fam_glue()
 		}
 	need_pool();
 	for (size_t k = 2; k <= 3; k++)
-		for (size_t n = 1; n <= (thorough ? 4u : 3u); n++)
+		for (size_t n = 1; n <= (thorough ? 5u : 4u); n++)
 		{
 			std::string cid = "glue:qr:rabin448:k" + str(k) + ":n" + str(n);
 			if (!begin_cell(cid))
 				continue;
 			QGame Q;
-			Q.setup(*POOL, 0, k, 2, cid);
+			Q.setup(*POOL, 0, k, 3, cid);
 			std::vector<size_t> types = pattern_types(n, 0);
 			TMCG_Stack<TMCG_Card> s;
 			Q.make_stack(s, types, k == 3);
@@ -1302,7 +1304,7 @@ int main(int argc, char **argv)
 		return 2;
 	MuteCerr mute;
 	seed = mcenv::env_seed();
-	thorough = (A.tier == "thorough");
+	thorough = (A.tier == "thorough") && !A.has("quickbounds");   // --quickbounds: quick alphabet inside a thorough run (ASan pass)
 	std::string family = A.get("family", "mixv");
 	if (family == "mixv") fam_mixv();
 	else if (family == "mixq") fam_mixq();
